@@ -1,56 +1,14 @@
 /-
   Line-protocol driver: one JSON array per input line, one JSON value per output line.
-  Imports model files only (core-only), so it links as a `lean_exe`.
+  Imports model files only (core-only) plus Lean.Data.Json, so it links as a `lean_exe`.
 -/
-import Lean.Data.Json
-import GormModel.Model.Limit
-import GormModel.Model.Batches
-open Lean Gorm
-
-def jInt? (j : Json) : Option Int := j.getInt?.toOption
-def jNat? (j : Json) : Option Nat := j.getNat?.toOption
-def jStr? (j : Json) : Option String := j.getStr?.toOption
-def jArr? (j : Json) : Option (Array Json) := j.getArr?.toOption
-
-def optIntJ : Option Int → Json
-  | some n => Json.num (JsonNumber.fromInt n)
-  | none => Json.null
-
-def natListJ (l : List Nat) : Json := Json.arr (l.map (fun n => Json.num (JsonNumber.fromNat n))).toArray
-
-def parseLimCalls (j : Json) : Option (List LimCall) := do
-  let a ← jArr? j
-  a.toList.mapM fun c => do
-    let p ← jArr? c
-    let k ← jStr? (p[0]?.getD Json.null)
-    let n ← jInt? (p[1]?.getD Json.null)
-    match k with
-    | "limit" => some (LimCall.limit n)
-    | "offset" => some (LimCall.offset n)
-    | _ => none
+import GormModel.Drv.C15
+import GormModel.Drv.C17
+open Lean Gorm Gorm.Drv
 
 def handle (args : Array Json) : Option Json := do
-  let op ← jStr? (args[0]?.getD Json.null)
-  match op with
-  | "limit.merge" =>
-    -- ["limit.merge", [["limit",3],["offset",-1],...]] -> [effLimit|null, effOffset|null]
-    let cs ← parseLimCalls (args[1]?.getD Json.null)
-    let st := applyCalls none cs
-    some (Json.arr #[optIntJ (effLimitOf st), optIntJ (effOffsetOf st)])
-  | "batches" =>
-    -- ["batches", rows:[nat], calls, batchSize] -> {"batches":[[..]],"find":[..],"fuel":bool,"pk":bool}
-    let rowsJ ← jArr? (args[1]?.getD Json.null)
-    let rows ← rowsJ.toList.mapM jNat?
-    let cs ← parseLimCalls (args[2]?.getD Json.null)
-    let b ← jInt? (args[3]?.getD Json.null)
-    let st := applyCalls none cs
-    let out := findInBatches rows st b (rows.length + 2)
-    some (Json.mkObj [
-      ("batches", Json.arr (out.batches.map natListJ).toArray),
-      ("find", natListJ (findAll rows st)),
-      ("fuel", Json.bool out.outOfFuel),
-      ("pk", Json.bool out.pkRequired)])
-  | _ => none
+  let op ← jStr? (arg args 0)
+  (handleC15 op args) <|> (handleC17 op args)
 
 partial def loop (hin hout : IO.FS.Stream) : IO Unit := do
   let line ← hin.getLine
